@@ -119,6 +119,38 @@ class _ListStruct(list, ImmutableMixin, _IteratorProxyMixin):
         copied.remove(ind)
         setattr(self._instance, getattr(self._field_definition, "_name", None), copied)
 
+    def __delitem__(self, key):
+        self._raise_if_immutable()
+        copied = self[:]
+        copied.__delitem__(key)
+        setattr(self._instance, getattr(self._field_definition, "_name", None), copied)
+
+    def __iadd__(self, other):
+        self._raise_if_immutable()
+        copied = self[:]
+        copied.extend(other)
+        setattr(self._instance, getattr(self._field_definition, "_name", None), copied)
+        return getattr(self._instance, getattr(self._field_definition, "_name", None))
+
+    def __imul__(self, n):
+        self._raise_if_immutable()
+        copied = self[:]
+        copied *= n
+        setattr(self._instance, getattr(self._field_definition, "_name", None), copied)
+        return getattr(self._instance, getattr(self._field_definition, "_name", None))
+
+    def sort(self, *, key=None, reverse=False):
+        self._raise_if_immutable()
+        copied = self[:]
+        copied.sort(key=key, reverse=reverse)
+        setattr(self._instance, getattr(self._field_definition, "_name", None), copied)
+
+    def reverse(self):
+        self._raise_if_immutable()
+        copied = self[:]
+        copied.reverse()
+        setattr(self._instance, getattr(self._field_definition, "_name", None), copied)
+
     def copy(self):
         copied = super().copy()
         return deepcopy(copied) if self._is_immutable() else copied
@@ -271,15 +303,37 @@ class _DequeStruct(deque, ImmutableMixin, _IteratorProxyMixin):
         setattr(self._instance, getattr(self._field_definition, "_name", None), copied)
         return res
 
-    def rotate(self, n: int) -> None:  # pylint: disable=signature-differs
+    def rotate(self, n: int = 1) -> None:  # pylint: disable=signature-differs
         self._raise_if_immutable()
-        # no need to validate again
-        super().rotate(n)
+        copied = deque(self)
+        copied.rotate(n)
+        setattr(self._instance, getattr(self._field_definition, "_name", None), copied)
 
     def reverse(self) -> None:
         self._raise_if_immutable()
-        # no need to validate again
-        super().reverse()
+        copied = deque(self)
+        copied.reverse()
+        setattr(self._instance, getattr(self._field_definition, "_name", None), copied)
+
+    def __delitem__(self, key):
+        self._raise_if_immutable()
+        copied = deque(self)
+        del copied[key]
+        setattr(self._instance, getattr(self._field_definition, "_name", None), copied)
+
+    def __iadd__(self, other):
+        self._raise_if_immutable()
+        copied = deque(self)
+        copied.extend(other)
+        setattr(self._instance, getattr(self._field_definition, "_name", None), copied)
+        return getattr(self._instance, getattr(self._field_definition, "_name", None))
+
+    def __imul__(self, n):
+        self._raise_if_immutable()
+        copied = deque(self)
+        copied *= n
+        setattr(self._instance, getattr(self._field_definition, "_name", None), copied)
+        return getattr(self._instance, getattr(self._field_definition, "_name", None))
 
     def __getstate__(self):
         return {
@@ -384,6 +438,27 @@ class _DictStruct(dict, ImmutableMixin):
     def clear(self) -> None:
         self._raise_if_immutable()
         setattr(self._instance, getattr(self._field_definition, "_name", None), {})
+
+    def setdefault(self, key, default=None):
+        self._raise_if_immutable()
+        copied = self.copy()
+        res = copied.setdefault(key, default)
+        setattr(self._instance, getattr(self._field_definition, "_name", None), copied)
+        return res
+
+    def popitem(self):
+        self._raise_if_immutable()
+        copied = self.copy()
+        res = copied.popitem()
+        setattr(self._instance, getattr(self._field_definition, "_name", None), copied)
+        return res
+
+    def __ior__(self, other):
+        self._raise_if_immutable()
+        copied = self.copy()
+        copied.update(other)
+        setattr(self._instance, getattr(self._field_definition, "_name", None), copied)
+        return getattr(self._instance, getattr(self._field_definition, "_name", None))
 
     def __getstate__(self):
         return {
